@@ -721,6 +721,9 @@ type Scenario struct {
 	// to the other entry points, and validity clauses the documentation leaves
 	// open are not judged (ConfigSpec.undecided).
 	Edges bool `json:"edges,omitempty"`
+	// Unset: the shape of the consumer - the callbacks of target.Handler that are
+	// left nil, as letters out of "aud" (consumer.go). "" = all three registered.
+	Unset string `json:"unset,omitempty"`
 }
 
 // settle removes the arguable transitions from spec: a request name / a target
